@@ -339,3 +339,166 @@ pub fn serve(spec: &Ret, func: &str, args: &[Value]) -> (i32, String) {
     };
     (0, v.to_string())
 }
+
+// ------------------------------------------------------------------ generator-side scope analysis (C23)
+
+#[derive(Clone, Debug, PartialEq)]
+pub enum ScopeEv {
+    Def(String),
+    Use(String),
+    /// (iterator, enclosed by a fold with that iterator)
+    Next(String, bool),
+}
+
+fn arg_events(a: &Arg, out: &mut Vec<ScopeEv>) {
+    if let Arg::Var { name, lens, .. } = a {
+        out.push(ScopeEv::Use(name.clone()));
+        for st in lens {
+            if let LensStep::ByScalar(n) = st {
+                out.push(ScopeEv::Use(n.clone()));
+            }
+        }
+    }
+}
+
+/// definition / use events in token order (the order `print` emits them)
+pub fn scope_events(i: &I) -> Vec<ScopeEv> {
+    fn go(i: &I, iters: &mut Vec<String>, out: &mut Vec<ScopeEv>) {
+        match i {
+            I::Call { peer, svc, func, args, out: o } => {
+                arg_events(peer, out);
+                arg_events(svc, out);
+                arg_events(func, out);
+                for a in args {
+                    arg_events(a, out);
+                }
+                if let Some(o) = o {
+                    out.push(ScopeEv::Def(o.clone()));
+                }
+            }
+            I::Seq(a, b) | I::Par(a, b) | I::Xor(a, b) => {
+                go(a, iters, out);
+                go(b, iters, out);
+            }
+            I::Match(a, b, body) | I::Mismatch(a, b, body) => {
+                arg_events(a, out);
+                arg_events(b, out);
+                go(body, iters, out);
+            }
+            I::Fail(FailKind::Arg(a)) => arg_events(a, out),
+            I::Fail(_) | I::Null | I::Never => {}
+            I::Ap { src, dst } => {
+                arg_events(src, out);
+                out.push(ScopeEv::Def(dst.clone()));
+            }
+            I::ApMap { key, val, map } => {
+                arg_events(key, out);
+                arg_events(val, out);
+                out.push(ScopeEv::Def(map.clone()));
+            }
+            I::New { var, body } => {
+                out.push(ScopeEv::Def(var.clone()));
+                go(body, iters, out);
+            }
+            I::Fold { iterable, iter, body, last } => {
+                arg_events(iterable, out);
+                out.push(ScopeEv::Def(iter.clone()));
+                iters.push(iter.clone());
+                go(body, iters, out);
+                if let Some(l) = last {
+                    go(l, iters, out);
+                }
+                iters.pop();
+            }
+            I::Next(it) => out.push(ScopeEv::Next(it.clone(), iters.contains(it))),
+            I::Canon { peer, dst, .. } => {
+                arg_events(peer, out);
+                out.push(ScopeEv::Def(dst.clone()));
+            }
+        }
+    }
+    let mut out = vec![];
+    go(i, &mut vec![], &mut out);
+    out
+}
+
+/// Some(reason) when a use has no earlier definition or a next is not enclosed
+pub fn ill_scoped(i: &I) -> Option<String> {
+    let evs = scope_events(i);
+    let mut defined: std::collections::BTreeSet<&str> = Default::default();
+    for e in &evs {
+        match e {
+            ScopeEv::Def(n) => {
+                defined.insert(n.as_str());
+            }
+            ScopeEv::Use(n) => {
+                if !defined.contains(n.as_str()) {
+                    return Some(format!("{} is used before any definition", n));
+                }
+            }
+            ScopeEv::Next(n, enclosed) => {
+                if !enclosed {
+                    return Some(format!("next {} outside a fold over it", n));
+                }
+            }
+        }
+    }
+    None
+}
+
+/// visit every argument position (uses) mutably, in token order
+pub fn for_each_arg_mut(i: &mut I, f: &mut dyn FnMut(&mut Arg)) {
+    match i {
+        I::Call { peer, svc, func, args, .. } => {
+            f(peer);
+            f(svc);
+            f(func);
+            for a in args {
+                f(a);
+            }
+        }
+        I::Seq(a, b) | I::Par(a, b) | I::Xor(a, b) => {
+            for_each_arg_mut(a, f);
+            for_each_arg_mut(b, f);
+        }
+        I::Match(a, b, body) | I::Mismatch(a, b, body) => {
+            f(a);
+            f(b);
+            for_each_arg_mut(body, f);
+        }
+        I::Fail(FailKind::Arg(a)) => f(a),
+        I::Fail(_) | I::Null | I::Never | I::Next(_) => {}
+        I::Ap { src, .. } => f(src),
+        I::ApMap { key, val, .. } => {
+            f(key);
+            f(val);
+        }
+        I::New { body, .. } => for_each_arg_mut(body, f),
+        I::Fold { iterable, body, last, .. } => {
+            f(iterable);
+            for_each_arg_mut(body, f);
+            if let Some(l) = last {
+                for_each_arg_mut(l, f);
+            }
+        }
+        I::Canon { peer, .. } => f(peer),
+    }
+}
+
+pub fn for_each_instr_mut(i: &mut I, f: &mut dyn FnMut(&mut I)) {
+    f(i);
+    match i {
+        I::Seq(a, b) | I::Par(a, b) | I::Xor(a, b) => {
+            for_each_instr_mut(a, f);
+            for_each_instr_mut(b, f);
+        }
+        I::Match(_, _, b) | I::Mismatch(_, _, b) | I::New { body: b, .. } => for_each_instr_mut(b, f),
+        I::Fold { body, last, .. } => {
+            for_each_instr_mut(body, f);
+            if let Some(l) = last {
+                for_each_instr_mut(l, f);
+            }
+        }
+        _ => {}
+    }
+}
